@@ -3,11 +3,13 @@
 mod derive;
 mod field;
 mod ggm;
+mod oprf;
 mod shamir;
 mod srv;
 mod star;
 mod star2;
 mod util;
+mod wire;
 
 use util::*;
 
@@ -28,6 +30,13 @@ fn main() {
     "ggm-record" => ggm::record(&a),
     "ggm-pairs" => ggm::pairs(&a),
     "ggm-export" => ggm::export(&a),
+    "wire-replay" => wire::replay(&a),
+    "wire-record" => wire::record(&a),
+    "crash-sweep" => wire::crash_sweep(&a),
+    "oprf-check" => oprf::oprf_check(&a),
+    "dleq-replay" => oprf::dleq_replay(&a),
+    "nonce-check" => oprf::nonce_check(&a),
+    "serde-check" => oprf::serde_check(&a),
     "srv-replay" => srv::replay(&a),
     "srv-record" => srv::record(&a),
     "recover-replay" => star::recover_replay(&a),
